@@ -61,6 +61,8 @@ def confirm(src, sid):
         if any(not f.startswith("src/") for f in files):
             print("patch touches files outside src/:", files); return False
         missing, last = suite(wt)
+        if missing == ["tests.handlers.test_combined_data::test_get_unexpected_units_county"]:
+            missing, last = suite(wt)  # known to fail about one run in ten on the unchanged tree (unseeded sample)
         record["suite_with_change"] = {"summary": last, "baseline_tests_missing": missing}
         rc1, last1 = demo(wt, "demo.py")
         record["demo_with_change"] = {"exit": rc1, "last_line": last1}
